@@ -430,6 +430,8 @@ def run(tier, seed):
     chk.extra["digest_aux_hashlib_cases"] = n_aux
     chk.extra["exhaustive_scope"] = ("every universe of MC_Codec.tla named in tlc_runs without '(seeded)' is enumerated "
                                      "completely; the seeded random walks and the auxiliary digest sample are samples")
+    import yaml_util                                  # std.parseYaml on the YAML 1.2 subset of spec/Yaml.tla
+    yaml_util.yaml_part(chk, tier, seed)
     return chk.finish()
 
 
